@@ -223,6 +223,48 @@ def gen_multipart_boundaries(rnd, count):
         made += 1
 
 
+def gen_requested_version_gap(rnd, count):
+    """multi-part contents that fit the automatically chosen version g but NOT the larger requested version v
+    (more header bits per segment there): M4 -> 1, 9 -> 10, 26 -> 27; plus the neighbouring fitting case"""
+    made, tries = 0, 0
+    while made < count and tries < count * 200:
+        tries += 1
+        g, v = rnd.choice([(0, 1), (0, 1), (9, 10), (26, 27)])
+        e = rnd.choice([x for x in levels_of(g) if x is not None and (v, x) in _tables()])
+        capg, capv = _tables()[(g, e)], _tables()[(v, e)]
+        k = rnd.randint(4, 9) if g == 0 else rnd.randint(20, 90)
+        parts, bg, bv = [], 0, 0
+        for i in range(k):
+            m = (1, 2)[i % 2] if rnd.random() < 0.8 else rnd.choice([1, 2, 4])
+            if parts and parts[-1][1] == m:
+                m = 1 if m != 1 else 2
+            n = rnd.randint(1, 5)
+            parts.append((content_for(rnd, m, n), m))
+            bg += header_bits(g, m) + bits_for(m, n)
+            bv += header_bits(v, m) + bits_for(m, n)
+        if parts[-1][1] == 1:
+            parts.append(('A', 2))
+            bg += header_bits(g, 2) + 6
+            bv += header_bits(v, 2) + 6
+        # final numeric part fills g up to its capacity minus 0..3 bits
+        room = capg - bg - header_bits(g, 1) - rnd.randint(0, 3)
+        n = room * 3 // 10
+        while n > 0 and bits_for(1, n) > room:
+            n -= 1
+        if n < 1:
+            continue
+        bg += header_bits(g, 1) + bits_for(1, n)
+        bv += header_bits(v, 1) + bits_for(1, n)
+        if not (bg <= capg and bv > capv):
+            continue
+        kw = dict(error=LEVEL_NAME[e], version=v, mask=rnd.randrange(4), boost_error=rnd.random() < 0.5)
+        if g > 0 or rnd.random() < 0.3:
+            kw['micro'] = False if g > 0 else None
+        yield Case(parts + [(content_for(rnd, 1, n), 1)], kw, 'requested-version-gap')
+        yield Case(parts + [(content_for(rnd, 1, n), 1)], dict(kw, version=None), 'requested-version-gap-auto')
+        made += 1
+
+
 def gen_eci_boundaries(rnd, versions):
     """byte-mode contents with eci=True in Latin-1 and in other encodings (12 bit ECI header), in this order
     and in reverse, at both sides of the capacity boundaries"""
